@@ -107,16 +107,21 @@ def dec_case(line):
     return p[1], p[2], bytes.fromhex(p[3]).decode('utf-8')
 
 
-def corpus_cases():
+def corpus_entries():
     out = []
     if os.path.isdir(CORPUS):
         for f in sorted(os.listdir(CORPUS)):
             if f.endswith('.json'):
                 try:
-                    out.append(json.load(open(os.path.join(CORPUS, f)))['case'])
+                    d = json.load(open(os.path.join(CORPUS, f)))
+                    out.append((d['case'], bool(d.get('expect_hashseed_stable'))))
                 except (ValueError, KeyError):
                     pass
     return out
+
+
+def corpus_cases():
+    return [c for c, _ in corpus_entries()]
 
 
 def gen_cases(tier, spec):
@@ -124,8 +129,8 @@ def gen_cases(tier, spec):
     rnd = lib.rng('C13')
     thorough = tier == 'thorough'
     cases = []
-    for c in corpus_cases():
-        cases.append({'line': c, 'origin': 'corpus', 'feats': []})
+    for c, stable in corpus_entries():
+        cases.append({'line': c, 'origin': 'corpus', 'feats': [], 'expect_stable': stable})
     # generated statements over the harness schema
     n_gen = int((1000 if thorough else 220) * SCALE)
     for i in range(n_gen):
@@ -599,7 +604,10 @@ def run(tier):
     cand = [i for i, r in enumerate(impl) if r.get('st') == 'ok']
     rnd = lib.rng('C13probe')
     nprobe = min(len(cand), int((250 if thorough else 70) * SCALE))
-    probe = sorted(rnd.sample(cand, nprobe)) if cand else []
+    forced = [i for i in cand if cases[i]['origin'] == 'corpus']
+    rest = [i for i in cand if cases[i]['origin'] != 'corpus']
+    probe = sorted(set(forced) | set(rnd.sample(rest, min(len(rest), max(0, nprobe - len(forced))))))
+    expect_stable = {i for i in forced if cases[i].get('expect_stable')}
     need_sorted = sorted(need_d)
     t0 = time.time()
     # attribution of the in-process differences: seed 0 only; hash-seed probe: the SAME line list (hence the same
@@ -722,7 +730,13 @@ def run(tier):
             if obs_key(f0) == obs_key(fh):
                 continue            # an artefact of the in-process variant's history: not a difference
             cross_diff += 1
-            if obs_key(f0) == obs_key2(f0) and obs_key(fh) == obs_key2(fh):
+            if i in expect_stable:
+                # recorded in the corpus as independent of the hash seed on the pinned tree: the known finding
+                # (pervasive dependence through PathId / PathAspect keyed sets) does not excuse a regression here
+                nd_classes[f'hashseed 0 vs {hs}:regression of a statement recorded as stable'] += 1
+                nd_violation(i, f'PYTHONHASHSEED 0 vs {hs}: the corpus records this statement as independent of the hash '
+                                'seed', obs_key(f0, False), obs_key(fh, False), {'mode': 'D', 'corpus': True})
+            elif obs_key(f0) == obs_key2(f0) and obs_key(fh) == obs_key2(fh):
                 nd_classes[f'hashseed 0 vs {hs}:' + KF_HASHSEED] += 1
                 if KF_HASHSEED in known:
                     kf.append((KF_HASHSEED, 'the emitted SQL depends on PYTHONHASHSEED (iteration over sets whose element '
